@@ -60,9 +60,9 @@ def gen_docs(ctx, n, big):
 #   * only the ASCII characters { } : ; ( ) " ' / * \ have structural meaning.
 # So none of the characters below separates, delimits, quotes or can be trimmed from anything, although Python's
 # str.isspace() / str.strip() / str.split() / str.splitlines(), unicodedata.normalize() and the case mappings treat
-# many of them like white space, line ends or ASCII punctuation.  Left out on purpose because the statement does not
-# pin them: U+00A0 (Emmet counts it as white space, CSS does not) and U+000C (CSS counts it as white space, Emmet
-# does not).
+# many of them like white space, line ends or ASCII punctuation.  Not in these lists: U+00A0, which Emmet's scanners
+# document as white space (it is generated AS white space by the white space styles below, WS_UNITS), and U+000C (CSS
+# counts it as white space, Emmet does not: the statement does not pin it, left out on purpose).
 WIDE_CLASSES = {
     # str.isspace() is true for each of these; the last four of the first row and \x85 \u2028 \u2029 also end a line
     # for str.splitlines()
@@ -337,6 +337,173 @@ def gen_empty_value_docs(ctx, n_small, n_random):
         docs.append(mk_sheet_ev(empty_items(rng, ctx.cover, 0, True, p)))
         ctx.cover('empty-value:random-sheets')
         ctx.cover('empty-value:random-sheets:share-of-declarations-%d%%' % int(p * 100))
+    return docs
+
+
+# ------------------------------------------------------------------ white space of every kind in every slot
+# Hard-coded fact, NOT read from the library under test: what Emmet's scanners call white space.  Upstream
+# @emmetio/scanner, utils.ts: isWhiteSpace(c) is c === 32 (space) || c === 9 (tab) || c === 160 ("non-breaking space"),
+# isSpace(c) is isWhiteSpace(c) || c === 10 (LF) || c === 13 (CR); the CSS matcher skips exactly these between tokens
+# and trims exactly these from a rule's content range.  So for the matcher a NO-BREAK SPACE is white space like a blank:
+# it is never part of a selector, a property name or a value it stands next to, it never starts or ends one, and it is
+# trimmed from both ends of a rule's content; inside strings, comments and parentheses it is an ordinary character.
+# (css_util.is_space / css_util.trim, which the oracle uses for content ranges, hard-code the same five characters.)
+# Editors and copy/paste from web pages and word processors produce NBSP indentation and `name:<NBSP>value`.
+# A sheet is written in ONE white space style; every white space slot of the sheet draws its run from the style:
+WS_UNITS = {'space': ' ', 'tab': '\t', 'lf': '\n', 'cr': '\r', 'crlf': '\r\n', 'nbsp': '\xa0'}
+WS_STYLES = ('space', 'tab', 'lf', 'cr', 'crlf', 'nbsp',            # one unit only, runs of one to three
+             'lf+nbsp-indent', 'crlf+nbsp-indent', 'lf+tab-indent', 'cr+space-indent',   # line break + indentation
+             'mixed', 'mixed-nbsp-at-the-ends')                       # runs of one to four units of any kind
+# slots at which a line may break (between items, before the closing brace, at the ends of the file); all others
+# (around the colon, between selector and brace, between the words of a selector or value, before the semicolon,
+# inside parentheses / strings / comments) are within a line
+WS_LINE_SLOTS = ('before-declaration', 'before-selector', 'before-closing-brace', 'file-start', 'file-end',
+                 'before-comment', 'after-comment')
+WS_NO_BREAK_SLOTS = ('inside-string',)      # a raw line break ends a string for the scanner (and for CSS)
+WS_EMPTY_SHARES = (0.0, 0.3, 0.6, 1.0)      # share of the optional slots left empty (1.0: no white space at all)
+
+
+class WsStyle:
+    """the white space writer of one sheet"""
+
+    def __init__(self, rng, cover, style, p_empty):
+        self.rng, self.cover, self.style, self.p_empty = rng, cover, style, p_empty
+        self.depth = 0
+        # every other sheet is small (at most two items per body, one level of nesting): short replays
+        self.n_max, self.max_depth = rng.choice(((2, 2), (3, 3)))
+
+    def _run(self, slot):
+        rng, st = self.rng, self.style
+        if slot in WS_NO_BREAK_SLOTS:
+            units = {'tab': ['tab'], 'lf+tab-indent': ['tab', 'space'], 'nbsp': ['nbsp'], 'space': ['space'],
+                     'cr+space-indent': ['space']}.get(st, ['nbsp', 'space', 'tab'] if 'nbsp' in st or 'mixed' in st else ['space'])
+            return [rng.choice(units) for _ in range(rng.randint(1, 2))]
+        if st in WS_UNITS:
+            return [st] * rng.randint(1, 3)
+        if st.endswith('-indent'):
+            brk, ind = st[:-len('-indent')].split('+')
+            if slot in WS_LINE_SLOTS:
+                return [brk] * rng.choice((1, 1, 2)) + [ind] * rng.choice((self.depth, self.depth, 2 * self.depth, 1))
+            return [rng.choice((ind, ind, 'space'))] * rng.choice((1, 1, 2))
+        names = sorted(WS_UNITS)
+        run = [rng.choice(names) for _ in range(rng.randint(1, 4))]
+        if st == 'mixed-nbsp-at-the-ends':
+            where = rng.choice(('first', 'last', 'both', 'only'))
+            if where in ('first', 'both'):
+                run[0] = 'nbsp'
+            if where in ('last', 'both'):
+                run[-1] = 'nbsp'
+            if where == 'only':
+                run = ['nbsp'] * len(run)
+        return run
+
+    def __call__(self, slot, need=False):
+        if not need and self.rng.random() < self.p_empty:
+            self.cover('ws:%s:none' % slot)
+            return ''
+        run = self._run(slot)
+        if not run:
+            self.cover('ws:%s:none' % slot)
+            return ''
+        kinds = sorted(set(run))
+        self.cover('ws:%s:%s' % (slot, kinds[0] if len(kinds) == 1 else 'mixed-with-nbsp' if 'nbsp' in kinds else 'mixed'))
+        # which unit touches the token that follows / precedes the slot
+        self.cover('ws:unit-before-next-token:%s' % run[-1])
+        self.cover('ws:unit-after-previous-token:%s' % run[0])
+        return ''.join(WS_UNITS[u] for u in run)
+
+    def word(self, w, slot):
+        """the blanks inside a selector / a parenthesised expression rewritten in the style (never left out)"""
+        if ' ' not in w or '"' in w or "'" in w:
+            return w
+        return ''.join(self(slot, need=True) if ch == ' ' else ch for ch in w)
+
+    def comment(self):
+        rng = self.rng
+        if rng.random() < 0.5:
+            return rng.choice(U.COMMENTS)
+        return '/*' + self('inside-comment') + rng.choice(['x', 'a: b;', '{', '}', ';', 'c { d: e; }']) + self('inside-comment') + '*/'
+
+    def string(self):
+        rng = self.rng
+        q = rng.choice('"\'')
+        bits = ['{', '}', ';', ':', '(', ')', '/*', '*/', '\\' + q, '\\\\', 'a', 'x']
+        out = ''
+        for _ in range(rng.randint(1, 4)):
+            out += self('inside-string', need=True) if rng.random() < 0.5 else rng.choice(bits)
+        return q + out + q
+
+    def gap(self, slot):
+        """white space and comments before an item / before the closing brace"""
+        out = ''
+        while self.rng.random() < 0.2:
+            out += self('before-comment') + self.comment()
+            out += self('after-comment') if self.rng.random() < 0.3 else ''
+        return out + self(slot)
+
+
+def ws_items(W, depth, top):
+    """mk_sheet_ev specification of a body written by the white space writer W"""
+    rng = W.rng
+    spec = []
+    n = rng.randint(1 if top else 0, W.n_max)
+    for i in range(n):
+        W.depth = depth
+        if depth < W.max_depth and rng.random() < (0.7 if top else 0.3):
+            spec.append(W.gap('file-start' if top and i == 0 else 'before-selector'))
+            sel = pick(rng, [lambda: W.word(rng.choice(U.SELECTORS), 'inside-selector'),
+                             lambda: W.word(rng.choice(U.SELECTORS), 'inside-selector'),
+                             lambda: 'a[title=%s]' % W.string()])
+            between = W('between-selector-and-brace')
+            if rng.random() < 0.1:
+                between += W.comment() + W('between-selector-and-brace')
+            spec.append(('rule', sel, between, ws_items(W, depth + 1, False)))
+        else:
+            spec.append(W.gap('file-start' if top and i == 0 else 'before-declaration'))
+            name = rng.choice(U.NAMES)
+            pre = W('before-colon') if rng.random() < 0.3 else ''
+            if rng.random() < 0.12:
+                # value-less declaration whose slot holds white space of the style (or nothing)
+                W.cover('ws:declaration-with-empty-value')
+                spec.append(('decl', name, pre, W('empty-value-slot'), [], '', True))
+                continue
+            post = W('after-colon')
+            if rng.random() < 0.08:
+                post += W.comment() + W('after-colon')
+            atoms = []
+            for j in range(rng.choice((1, 1, 2, 3))):
+                if j == 0:
+                    sep = ''
+                else:
+                    sep = pick(rng, [lambda: W('between-value-words', need=True), lambda: W('between-value-words', need=True),
+                                     lambda: W('before-comma') + ',' + W('after-comma'),
+                                     lambda: W('between-value-words') + '/' + W('between-value-words'),
+                                     lambda: W('between-value-words') + W.comment() + W('between-value-words')])
+                atoms.append((sep, pick(rng, [lambda: W.word(rng.choice(U.ATOMS), 'inside-parentheses'),
+                                              lambda: W.word(rng.choice(U.ATOMS), 'inside-parentheses'),
+                                              W.string, lambda: 'url(' + W.string() + ')'])))
+            tail = W('before-semicolon') if rng.random() < 0.3 else ''
+            if rng.random() < 0.06:
+                tail += W.comment() + (W('before-semicolon') if rng.random() < 0.3 else '')
+            spec.append(('decl', name, pre, post, atoms, tail, True))
+    W.depth = max(depth - 1, 0)
+    spec.append(W.gap('file-end' if top else 'before-closing-brace'))
+    return spec
+
+
+def gen_ws_docs(ctx, n):
+    """Stylesheets written in one white space style each (WS_STYLES x WS_EMPTY_SHARES in turn, so that every style is
+    met with every share of omitted slots): random trees of nested rules and declarations in which EVERY white space
+    slot is filled by the style, with the same kind of record as U.gen_sheet."""
+    combos = [(st, pe) for pe in WS_EMPTY_SHARES for st in WS_STYLES if not (pe == 1.0 and st != 'space')]
+    ctx.rng.shuffle(combos)
+    docs = []
+    for k in range(n):
+        st, pe = combos[k % len(combos)]
+        docs.append(mk_sheet_ev(ws_items(WsStyle(ctx.rng, ctx.cover, st, pe), 0, True)))
+        ctx.cover('ws:sheets')
+        ctx.cover('ws:style:%s' % ('no-white-space-at-all' if pe == 1.0 else st))
+        ctx.cover('ws:optional-slots-left-empty-%d%%' % int(pe * 100))
     return docs
 
 
@@ -817,7 +984,8 @@ def run(ctx):
         'and small { } : ; ( ) " \' / * \\ , Greek question mark, ratio, typographic quotes) and letters/digits/marks '
         '(accented, length-changing case mappings, combining mark, non-ASCII digits, CJK, beyond the BMP); by the CSS '
         'syntax all of these are ordinary name characters and the record counts them as part of the word they stand '
-        'in (U+00A0 and U+000C are not generated: the statement does not say which side they are on); then '
+        'in (U+000C is not generated: the statement does not say which side it is on; U+00A0 is Emmet white space, see '
+        'the white space styles below); then '
         'stylesheets with declarations whose value is EMPTY (buckets empty-value:*; the half-typed `name:;`, the '
         'empty custom property `--x:;`, the commented-out value `name: /* red */;`): the slot between colon and '
         'semicolon holds nothing, white space only (space, tab, LF, CRLF) or white space and comments only (also '
@@ -829,11 +997,25 @@ def run(ctx):
         '(semicolon + 1) exactly and an empty body inside the value slot (colon < v <= semicolon), '
         'balanced_outward exactly (empty ranges are never listed), balanced_inward with the direct-hit test up to '
         'either end of the slot; these sheets are compared with the extracted model like all others and lie '
-        'outside the Level B grammar (reported there as declaration-with-empty-value); every '
+        'outside the Level B grammar (reported there as declaration-with-empty-value); then stylesheets written '
+        'in ONE WHITE SPACE STYLE each (buckets ws:*): random trees (nested rules, declarations with one to three '
+        'value words / strings / url() / parenthesised expressions, comments, a share of value-less declarations) in '
+        'which every white space slot -- start of file, before a declaration, before a selector, between the words '
+        'of a selector, between selector and brace, before and after the colon, between value words, around commas '
+        'and slashes, inside parentheses, inside strings (no raw line break there), inside and around comments, '
+        'before the semicolon, the empty-value slot, before the closing brace, end of file -- is filled from the '
+        'style: only blanks, only tabs, only LF, only CR, only CRLF, only NO-BREAK SPACE (runs of one to three), '
+        'line break + indentation (LF+NBSP, CRLF+NBSP, LF+tab, CR+blank; NBSP / tab / blank around the colon), runs '
+        'of one to four units of any kind, such runs with NBSP as first / last / both / only unit; each style with '
+        'none, 30% and 60% of the optional slots left empty, and no white space at all; the white space set is '
+        'hard-coded from upstream @emmetio/scanner utils.ts (isWhiteSpace: U+0020, U+0009, U+00A0; isSpace: plus '
+        'U+000A, U+000D), so a NBSP never belongs to, starts or ends a selector, name or value and is trimmed from '
+        'a rule\'s content range like a blank; buckets ws:<slot>:<units> and ws:unit-before-next-token:* / '
+        'ws:unit-after-previous-token:* say which unit touched the neighbouring token; every '
         'position -1..len+1; match, balanced_outward, balanced_inward compared with the generator\'s record (oracle) '
         'and with the extracted model (correspondence). Call sequences: positions of two sheets in shuffled order '
         'with queries on half-typed sheets in between. Caller-owned answers (buckets owned:*, oracle only, the model '
-        'has no objects): on the shortest and on random sheets of both generators, for random positions and each of '
+        'has no objects): on the shortest and on random sheets of all these generators, for random positions and each of '
         'the three functions, scripts on the RAW return values: ask, let the caller use the answer up in place '
         '(lists: pop first/last, clear, reverse, shift offsets, append/insert a range of its own, drop until a larger '
         'range, sort, keep one, extend; the match object: shift offsets, change type, drop body, collapse), ask the '
@@ -850,6 +1032,8 @@ def run(ctx):
     docs += gen_wide_docs(ctx, 70 if quick else 1400)
     n_wide = len(docs)
     docs += gen_empty_value_docs(ctx, 90 if quick else 10 ** 6, 40 if quick else 800)
+    n_empty = len(docs)
+    docs += gen_ws_docs(ctx, 90 if quick else 1800)
     texts = [t for t, _ in docs]
     impls = U.impl_docs(texts, FUNCS, procs)
     ctx.cover('docs', len(docs))
@@ -870,7 +1054,7 @@ def run(ctx):
         bad = oracle_doc(text, items, im)
         for f, (pos, why) in bad.items():
             failures.append((len(text), i, f, pos, why))
-        if n_corpus <= i < n_corpus + 3 or n_classic <= i < n_classic + 2 or n_wide <= i < n_wide + 2:
+        if n_corpus <= i < n_corpus + 3 or n_classic <= i < n_classic + 2 or n_wide <= i < n_wide + 2 or n_empty <= i < n_empty + 2:
             ctx.sample({'text': text, 'match@%d' % (len(text) // 2): repr(im['match'][len(text) // 2 + 1]),
                         'outward': repr(im['outward'][len(text) // 2 + 1])})
     failures.sort()
@@ -885,7 +1069,7 @@ def run(ctx):
                               'func': f, 'why': why})
     ctx.cov['oracle'] = {'sheets': len(docs), 'failing_sheets': len({i for _, i, _, _, _ in failures})}
     call_sequences(ctx, docs[n_corpus:n_corpus + (12 if quick else 120)])
-    # the answers belong to the caller: sheets of both generators, the shortest ones (small replays) and random ones
+    # the answers belong to the caller: sheets of all generators, the shortest ones (small replays) and random ones
     pool = sorted(docs[n_corpus:], key=lambda d: len(d[0]))
     k_short, k_rand = (8, 16) if quick else (40, 160)
     owned_docs = pool[:k_short] + ctx.rng.sample(pool[k_short:], min(k_rand, len(pool) - k_short))
